@@ -10,10 +10,10 @@ const (
 	Huge   = 3 // total frame size beyond 2 097 151 bytes
 )
 
-var boundaryLens = []int{0, 1, 2, 127, 128, 129, 255, 256, 1023, 1024, 4095, 4096, 4097, 8192, 16383, 16384, 32767, 32768, 65533, 65534, 65535}
+var boundaryLens = []int{0, 1, 2, 10, 15, 16, 17, 31, 32, 33, 63, 64, 65, 100, 127, 128, 129, 255, 256, 257, 1000, 1023, 1024, 1025, 2047, 2048, 2049, 4095, 4096, 4097, 8192, 10000, 16383, 16384, 32767, 32768, 65533, 65534, 65535}
 
-var U16Pool = []uint32{1, 2, 255, 256, 32767, 32768, 65534, 65535}
-var U32Pool = []uint32{1, 2, 255, 256, 65535, 65536, 1<<31 - 1, 1 << 31, 1<<32 - 2, 1<<32 - 1}
+var U16Pool = []uint32{1, 2, 10, 60, 100, 255, 256, 257, 1000, 1024, 1883, 3600, 4096, 8883, 0x00ff, 0xff00, 32767, 32768, 65534, 65535}
+var U32Pool = []uint32{1, 2, 60, 255, 256, 1000, 3600, 65535, 65536, 86400, 1 << 24, 1<<24 + 1, 0x00ffffff, 0xff000000, 268435455, 268435456, 1<<31 - 1, 1 << 31, 1<<32 - 2, 1<<32 - 1}
 var VBIPool = []uint32{1, 127, 128, 16383, 16384, 2097151, 2097152, 268435454, 268435455}
 
 // Len picks a length (≥min) for the size class, boundary-biased.
@@ -90,7 +90,7 @@ var runePool = []rune{'a', 'Z', '0', '/', '+', '#', '$', ' ', '"', '%', '\\', '\
 
 // tokens that mean something to MQTT software (shared subscriptions, system
 // topics, wildcards, empty levels); strings are built around them now and then.
-var mqttTokens = []string{"$share/", "$share/g", "$share/workers", "$share/g/t", "$share//t", "$share/g/", "$SYS/", "$SYS/broker/#", "$queue/q", "+", "#", "+/+", "a/#", "/", "//", "/a", "a/", "a//b", "$", "$share", "+/#", "MQTT", "true", "5", "*********", " ", "  ", "\t", " \t ", "\n", "%", "%s", "%d%%", "100% full", "%!v(MISSING)"}
+var mqttTokens = []string{"$share/", "$share/g", "$share/workers", "$share/g/t", "$share//t", "$share/g/", "$SYS/", "$SYS/broker/#", "$queue/q", "+", "#", "+/+", "a/#", "/", "//", "/a", "a/", "a//b", "$", "$share", "+/#", "MQTT", "true", "5", "*********", " ", "  ", "\t", " \t ", "\n", "%", "%s", "%d%%", "100% full", "%!v(MISSING)", "\ufeff", "\ufefftopic", "a/b/", "/#", "#/", "a+", "+a", "$SYS/#", "$SYS", "$sys/", "null", "nil", "<nil>", "\"", "'", "\\", "{}", "[]", "0", "-1", "false", "malformed!", "0 bytes", "PUBLISH", "----", "mqtt://host:1883", "mqtts://h", "tcp://127.0.0.1:1883", "ssl://h:8883", "tls://h", "ws://h/mqtt", "wss://h/mqtt", "http://h", "host:1883", "[::1]:1883", "localhost", "application/json", "text/plain; charset=utf-8", "SCRAM-SHA-256", "PLAIN", "auto-0001", "00000000-0000-0000-0000-000000000000", "a,b", "a;b", "a=b", "k:v", "\u00a0", "\u200b", "\u2028", "e\u0301", "\U0001f600", "İ", "ß", "ǅ"}
 
 // UTF8 returns a well-formed UTF-8 string of exactly n bytes without U+0000.
 func UTF8(r *RNG, n int) string {
